@@ -6,6 +6,7 @@ import Proofs.C01.JacMult
 import Proofs.C01.CapstoneLadders
 import Proofs.C01.CapstoneCofactor
 import Proofs.C01.CapstoneToy
+import Proofs.C01.CapstoneLadders2
 /-!
 # C01 — curve and field arithmetic compute exactly the group law (DESIGN.md §3 C01)
 
@@ -370,5 +371,92 @@ example : CurveOk 43 Toy.toyC := Toy.toyOk
 noncomputable example : Lawful (opsSub Toy.toyOk) (Pt 43 Toy.toyC.toCurveGroup) := Toy.toyLawful
 example : ∃ L : Lawful (opsSub Toy.toyOk) (Pt 43 Toy.toyC.toCurveGroup), ∀ P, L.abs P = absA 43 _ P.1 :=
   ec_ops_lawful Toy.toyOk (by decide)
+
+/-! ## wave 3 — the remaining ladders on btclib's arithmetic, GLV at point level, Bos–Coster total -/
+section CapstoneLadders2
+variable {p : ℕ} [Fact p.Prime] {c : CurveGroup} (hp : c.p = (p : ℤ))
+  (H : AddSubgroup (Pt p c)) (hH : NoTwoTorsionIn H)
+include hp hH
+
+/-- `_mult_fixed_window_var(…, cached=False)`: `m • Q`, every `m`, every `w ≥ 1` -/
+theorem mult_fixed_window_ec (m w : ℕ) (hw : 1 ≤ w) (Q : JacPoint) (hQ : JValid p c Q) (hQH : absJ p c Q ∈ H) :
+    JValid p c (multFixedWindow (ecOps c) m Q w) ∧
+      absJ p c (multFixedWindow (ecOps c) m Q w) = (m : ℤ) • absJ p c Q := multFixedWindow_ec hp H hH m w hw Q hQ hQH
+
+/-- `_mult_fixed_window_var(…, cached=True)` at the GENERATED `MAX_W` -/
+theorem mult_fixed_window_cached_ec (m w : ℕ) (hw : 1 ≤ w) (hmax : w ≤ Gen.Curves.MAX_W) (Q : JacPoint)
+    (hQ : JValid p c Q) (hQH : absJ p c Q ∈ H) :
+    JValid p c (multFixedWindowCached (ecOps c) Gen.Curves.MAX_W m Q w) ∧
+      absJ p c (multFixedWindowCached (ecOps c) Gen.Curves.MAX_W m Q w) = (m : ℤ) • absJ p c Q :=
+  multFixedWindowCached_ec hp H hH _ m w hw hmax Q hQ hQH
+
+/-- `_mult_fixed_window_cached_var` (one cached table per digit position) -/
+theorem mult_fixed_window_cached_pos_ec (pSize m w : ℕ) (hw : 1 ≤ w) (Q r : JacPoint) (hQ : JValid p c Q)
+    (hQH : absJ p c Q ∈ H) (h : multFixedWindowCachedPos (ecOps c) pSize m Q w = some r) :
+    JValid p c r ∧ absJ p c r = (m : ℤ) • absJ p c Q := multFixedWindowCachedPos_ec hp H hH pSize m w hw Q r hQ hQH h
+
+theorem mult_sliding_window_ec (m w : ℕ) (hw : 1 ≤ w) (Q : JacPoint) (hQ : JValid p c Q) (hQH : absJ p c Q ∈ H) :
+    JValid p c (multSlidingWindow (ecOps c) m Q w) ∧
+      absJ p c (multSlidingWindow (ecOps c) m Q w) = (m : ℤ) • absJ p c Q :=
+  multSlidingWindow_ec hp H hH m w hw Q hQ hQH
+
+theorem mult_wnaf_ec (m w : ℕ) (hw : 1 ≤ w) (Q : JacPoint) (hQ : JValid p c Q) (hQH : absJ p c Q ∈ H) :
+    JValid p c (multWNAF (ecOps c) m Q w) ∧
+      absJ p c (multWNAF (ecOps c) m Q w) = (m : ℤ) • absJ p c Q := multWNAF_ec hp H hH m w hw Q hQ hQH
+
+/-- Shamir–Strauss `_double_mult_var`: `u • H + v • Q` -/
+theorem double_mult_var_ec (u v : ℕ) (P Q : JacPoint) (hP : JValid p c P) (hPH : absJ p c P ∈ H)
+    (hQ : JValid p c Q) (hQH : absJ p c Q ∈ H) :
+    JValid p c (doubleMultVar (ecOps c) u P v Q) ∧
+      absJ p c (doubleMultVar (ecOps c) u P v Q) = (u : ℤ) • absJ p c P + (v : ℤ) • absJ p c Q :=
+  doubleMultVar_ec hp H hH u v P Q hP hPH hQ hQH
+
+theorem double_mult_regular_window_ec (scalarLen u v w : ℕ) (P Q r : JacPoint) (hP : JValid p c P)
+    (hPH : absJ p c P ∈ H) (hQ : JValid p c Q) (hQH : absJ p c Q ∈ H)
+    (h : doubleMultRegularWindow (ecOps c) scalarLen u P v Q w = some r) :
+    JValid p c r ∧ absJ p c r = (u : ℤ) • absJ p c P + (v : ℤ) • absJ p c Q :=
+  doubleMultRegularWindow_ec hp H hH scalarLen u v w P Q r hP hPH hQ hQH h
+
+/-- `_mult_endomorphism_secp256k1` (what `mult` runs on secp256k1 for a point that is not `G`): `m • Q`, given the
+NAMED endomorphism law `EndoLawEc` (`(β·X, Y, Z)` denotes `λ • P`; `N` kills the group) — decomposition, signs,
+recoding, windows and corrections are proved, with the generated `λ`, `N` -/
+theorem mult_endomorphism_ec (E : EndoLawEc hp H hH) (halfLen m w : ℕ) (Q r : JacPoint) (hQ : JValid p c Q)
+    (hQH : absJ p c Q ∈ H) (h : multEndomorphism (ecOps c) halfLen m Q w = some r) :
+    JValid p c r ∧ absJ p c r = (m : ℤ) • absJ p c Q := multEndomorphism_ec hp H hH E halfLen m w Q r hQ hQH h
+
+theorem mult_endomorphism_var_ec (E : EndoLawEc hp H hH) (isFixed : JacPoint → Bool) (fixedW m w : ℕ)
+    (hfw : 1 ≤ fixedW) (Q r : JacPoint) (hQ : JValid p c Q) (hQH : absJ p c Q ∈ H)
+    (h : multEndomorphismVar (ecOps c) isFixed fixedW m Q w = some r) :
+    JValid p c r ∧ absJ p c r = (m : ℤ) • absJ p c Q :=
+  multEndomorphismVar_ec hp H hH E isFixed fixedW m w hfw Q r hQ hQH h
+
+/-- `_double_mult_endomorphism_secp256k1_var` (what `double_mult_var` runs on secp256k1) -/
+theorem double_mult_endomorphism_ec (E : EndoLawEc hp H hH) (isFixed : JacPoint → Bool)
+    (eqv : JacPoint → JacPoint → Bool) (fixedW u v w : ℕ) (hfw : 1 ≤ fixedW) (P Q r : JacPoint)
+    (hP : JValid p c P) (hPH : absJ p c P ∈ H) (hQ : JValid p c Q) (hQH : absJ p c Q ∈ H)
+    (h : doubleMultEndomorphismVar (ecOps c) isFixed eqv fixedW u P v Q w = some r) :
+    JValid p c r ∧ absJ p c r = (u : ℤ) • absJ p c P + (v : ℤ) • absJ p c Q :=
+  doubleMultEndomorphismVar_ec hp H hH E isFixed eqv fixedW u v w hfw P Q r hP hPH hQ hQH h
+
+/-- Bos–Coster with the model's heap (Python's `heapq` order on `(-n, PJ)`), TOTAL: always answers on admissible
+arguments (termination: `Σ nᵢ` strictly decreases), and the answer is `Σ uᵢ • Pᵢ` -/
+theorem bos_coster_total_ec (scalarLen multW : ℕ) (hw : 1 ≤ multW) (scalars : List ℕ)
+    (points : List JacPoint) (hlen : scalars.length = points.length) (h2 : 2 ≤ scalars.length)
+    (hpts : ∀ P ∈ points, JValid p c P ∧ absJ p c P ∈ H) :
+    ∃ r, multiMultBosCoster (ecOps c) heapSelect scalarLen multW scalars points = some r ∧
+      JValid p c r ∧ absJ p c r = psum p c (scalars.zip points) :=
+  multiMultBosCoster_heap_ec hp H hH scalarLen multW hw scalars points hlen h2 hpts
+end CapstoneLadders2
+
+/-- Bos–Coster terminates for ANY heap that hands back a largest pair, on any operations -/
+theorem bos_coster_terminates {α β : Type} {o : JacOps α β} (sel : Select α) (hsel : SelectOk sel)
+    (hmax : SelectMax sel) (fuel : ℕ) (xs : List (ℕ × α)) (hpos : ∀ np ∈ xs, 1 ≤ np.1) (hne : xs ≠ [])
+    (hfuel : nsum xs < fuel) : ∃ r, bosCosterLoop o sel fuel xs = some r ∧ 1 ≤ r.1 :=
+  bosCosterLoop_terminates sel hsel hmax fuel xs hpos hne hfuel
+
+/-- the regular window (`_mult`) always answers: `w ≥ 1` and a positive `scalar_len` (or a positive scalar) -/
+theorem mult_regular_window_answers {α β : Type} {o : JacOps α β} (scalarLen m w : ℕ) (hw : 1 ≤ w)
+    (hs : 1 ≤ scalarLen ∨ 1 ≤ m) (Q : α) : ∃ r, multRegularWindow o scalarLen m Q w = some r :=
+  multRegularWindow_answers scalarLen m w hw hs Q
 
 end Props.C01
